@@ -653,6 +653,80 @@ func genReplacedDoc(r *rng.R) string {
 	return fmt.Sprintf("<html><style>%s</style><body>%s</body></html>", strings.Join(css, "\n"), body.String())
 }
 
+// genTargetDoc: generated content that depends on targets (target-counter / target-counters / target-text)
+// in ::before/::after of every display type, pointing at anchors that come LATER in the document (pending
+// during the first pass, recomputed by TargetCollector.CheckPendingTargets) and earlier ones; the boxes are
+// built with the TargetCollector that served the style computation, as layout.Layout does.
+func genTargetDoc(r *rng.R) string {
+	var css []string
+	css = append(css, fmt.Sprintf("h1{counter-increment:chapter %d} h2{counter-increment:sec}", r.Range(1, 4)))
+	nT := r.Range(1, 3)
+	target := func() string { return fmt.Sprintf("t%d", r.Intn(nT)) }
+	pdisps := []string{"block", "inline-block", "table-cell", "flex", "grid", "inline", "list-item", "inline-flex", "table", "table-caption", "flow-root"}
+	mkSource := func(i int) string {
+		id := fmt.Sprintf("s%d", i)
+		for _, ps := range []string{"before", "after"} {
+			if r.P(2, 3) {
+				var content string
+				switch r.Intn(6) {
+				case 0:
+					content = "target-counter(attr(href), chapter)"
+				case 1:
+					content = fmt.Sprintf(`target-counter("#%s", chapter, upper-roman) " x"`, target())
+				case 2:
+					content = "target-text(attr(href))"
+				case 3:
+					content = fmt.Sprintf(`"p " target-text("#%s", %s)`, target(), rng.Pick(r, "content", "before", "first-letter"))
+				case 4:
+					content = `target-counters(attr(href), sec, ".") " " target-counter(attr(href), chapter)`
+				default:
+					content = `"plain"`
+				}
+				st := fmt.Sprintf("display:%s;content:%s", rng.Pick(r, pdisps...), content)
+				if r.P(1, 5) {
+					st += ";float:" + rng.Pick(r, "left", "right")
+				}
+				if r.P(1, 6) {
+					st += ";position:" + rng.Pick(r, "absolute", "relative")
+				}
+				css = append(css, fmt.Sprintf("#%s::%s{%s}", id, ps, st))
+			}
+		}
+		tag := rng.Pick(r, "a", "a", "span", "div", "li")
+		return fmt.Sprintf(`<%s id="%s" href="#%s" style="display:%s">%s</%s>`, tag, id, target(),
+			rng.Pick(r, "inline", "inline", "block", "flex", "grid", "inline-block", "table-cell", "list-item"), rng.Pick(r, "see", "", " ", "a b"), tag)
+	}
+	var items []string
+	nS := r.Range(1, 4)
+	for i := 0; i < nS; i++ {
+		items = append(items, mkSource(i))
+	}
+	for i := 0; i < nT; i++ {
+		tt := rng.Pick(r, "h1", "h1", "h2", "p")
+		if r.P(1, 3) {
+			css = append(css, fmt.Sprintf(`#t%d::before{content:"B%d"}`, i, i))
+		}
+		items = append(items, fmt.Sprintf(`<%s id="t%d">Title %d</%s>`, tt, i, i, tt))
+	}
+	// sources first (forward references) most of the time; otherwise shuffled (backward and mixed)
+	if r.P(1, 3) {
+		for i := len(items) - 1; i > 0; i-- {
+			j := r.Intn(i + 1)
+			items[i], items[j] = items[j], items[i]
+		}
+	}
+	wrap := rng.Pick(r, "<p>%s</p>", "<div>%s</div>", "%s", `<div style="display:flex">%s</div>`)
+	var body strings.Builder
+	for _, it := range items {
+		if strings.HasPrefix(it, "<h") || r.P(1, 2) {
+			body.WriteString(it)
+		} else {
+			fmt.Fprintf(&body, wrap, it)
+		}
+	}
+	return fmt.Sprintf("<html><style>%s</style><body>%s</body></html>", strings.Join(css, "\n"), body.String())
+}
+
 // genGridDoc: a plain table with many rows/cells and dense spans (the grid-slot assignment of wrapTable).
 func genGridDoc(r *rng.R) string {
 	var sb strings.Builder
@@ -1057,6 +1131,7 @@ var corpus = []string{
 	`<body><table><tr><td>a<td rowspan=2>b<tr><td colspan=2>c</table></body>`,                 // KF09-1
 	`<body><span style="position:running(hd)">a<div>b</div>c</span>d</body>`,                  // fixed KF09-2 (regression)
 	`<style>@page{@top-center{content:element(hd)}}</style><body><span style="position:running(hd)">a<div>b<b>x</b></div>c</span>d</body>`, // fixed KF09-2 (regression)
+	`<style>h1{counter-increment:chapter 3} a::after{display:block;content:target-counter(attr(href), chapter)} a::before{display:flex;content:target-text(attr(href))}</style><body><p><a href="#t">see chapter</a></p><h1 id="t">Title</h1><a href="#t">back</a></body>`, // seeded m10
 	`<body><div style="display:none;float:footnote">hidden<b>x</b></div>v</body>`, // seeded m3
 	`<style>#a::footnote-marker{content:"m"}#a::footnote-call{content:"c"}</style><body><p>v<span id=a style="display:none;float:footnote;footnote-display:block">h</span></p><li style="float:footnote">item</li><div style="display:none"><span style="float:footnote">f</span><p style="position:running(hd)">r</p></div></body>`,
 	`<body><table><colgroup span=2><col span=3><thead><tr><td>a<tfoot><tr><td>b<tbody><tr><td>c<thead><tr><td>d</table></body>`,
@@ -1073,7 +1148,7 @@ func Run(tier string, seed uint64, modelPath, repo string, out *res.Result) erro
 	out.Rule = "random HTML documents: 1-3 top-level items, <= ~10 elements, depth <= 4; every element gets display from the 20 values makeBox supports + none " +
 		"(mis-nested table parts on purpose), float, position (absolute/fixed/relative, running() in 1/4 of the documents), white-space, caption-side, " +
 		"colspan/rowspan/span attributes (valid, 0, negative, junk) on any element; real <table> markup with thead/tfoot/colgroup/col; ::before/::after/::marker with any display; " +
-		"list items; replaced elements that really load (img/object/embed with data: URIs of a valid SVG or PNG, inline svg with shapes) carrying fallback children, ::before/::after/::marker content and list-item display; float:footnote (rare); mixed text (blank, spaces, newlines); every 10th document crosses display:none with every float (incl. footnote) / position (incl. running) / footnote-display value on list items, table parts, replaced elements with children, with content in ::before/::after/::marker/::footnote-call/::footnote-marker and hidden ancestors of footnotes and running elements (the DOM judge also walks the footnotes list and the footnote bodies hanging off ::footnote-call boxes; display:none is read from the cascade before any box is built); every 10th document is a plain table with up to 3 groups x 6 rows x 6 cells and dense colspan 0-4 / rowspan 0-5 (grid-slot assignment). Each document: L1 five passes vs model stage by stage, " +
+		"list items; replaced elements that really load (img/object/embed with data: URIs of a valid SVG or PNG, inline svg with shapes) carrying fallback children, ::before/::after/::marker content and list-item display; float:footnote (rare); mixed text (blank, spaces, newlines); every 10th document crosses display:none with every float (incl. footnote) / position (incl. running) / footnote-display value on list items, table parts, replaced elements with children, with content in ::before/::after/::marker/::footnote-call/::footnote-marker and hidden ancestors of footnotes and running elements (the DOM judge also walks the footnotes list and the footnote bodies hanging off ::footnote-call boxes; display:none is read from the cascade before any box is built); every 10th document has ::before/::after content using target-counter()/target-counters()/target-text() with every display value on the pseudo-element, pointing at anchors later and earlier in the document (pending targets; the boxes are built with the TargetCollector of the style computation, as layout.Layout does, and WF is judged on what BuildFormattingStructure returns); every 10th document is a plain table with up to 3 groups x 6 rows x 6 cells and dense colspan 0-4 / rowspan 0-5 (grid-slot assignment). Each document: L1 five passes vs model stage by stage, " +
 		"L2 BuildFormattingStructure judged by WF and against the DOM. non-trivial = raw tree contains a table-part/flex/grid box or a block inside an inline; distinct by source text. " +
 		"thorough adds the exhaustive family of <=3 nested/sibling elements x 17 display values."
 	if os.Getenv("C09_WORKER") != "" {
@@ -1246,6 +1321,8 @@ func steps(tier string, seed uint64, out *res.Result, f func(idx int, kind, src 
 			src = genHiddenDoc(cr)
 		case i%10 == 7:
 			src = genReplacedDoc(cr)
+		case i%10 == 2:
+			src = genTargetDoc(cr)
 		default:
 			src = genDoc(cr, i%4 == 0)
 		}
